@@ -116,12 +116,14 @@ func checkC18(p *Prog, r *Report) {
 	c18Transform(p, r, stores, ax)
 	c18Derived(p, r, stores, ax)
 	c18CallSite(p, r)
+	c18Ranges(p, r)
+	c18IndexTests(p, r)
 }
 
 // ---------------------------------------------------------------- R1 tables
 
 func c18Tables(p *Prog, r *Report, stores []owStore) {
-	r.Rule("C18.R1", "three tables agree: every name the parser accepts is applied and range-checked in exactly one arity class (base, per stage, per stage and organ), and nothing is applied without a range check or range-checked without being applied", 19)
+	r.Rule("C18.R1", "three tables agree: every name the parser accepts is applied and range-checked in exactly one arity class (base, per stage, per stage and organ), and nothing is applied without a range check or range-checked without being applied; asked about each applied name the parser's filter answers yes, and no for a name that is no parameter", 39)
 	// accepted names
 	accepted := map[string]bool{}
 	if fi := p.Funcs["hermes.isValidCropParameter"]; fi != nil {
@@ -241,6 +243,12 @@ func c18Tables(p *Prog, r *Report, stores []owStore) {
 			r.Ob("accepted:"+n, "-", false, fmt.Sprintf("the parser accepts %s but it is applied in %d arity classes %v", n, len(seenIn[n]), seenIn[n]))
 		}
 	}
+	var appliedNames []string
+	for n := range seenIn {
+		appliedNames = append(appliedNames, n)
+	}
+	sort.Strings(appliedNames)
+	c18ParserAccepts(p, r, appliedNames)
 }
 
 // ---------------------------------------------------------------- R2 validation
@@ -330,8 +338,14 @@ func c18Validate(p *Prog, r *Report, stores []owStore, ax *Exec) {
 							}
 						}
 					}
-					if tv, ok := vx.Info.Types[side]; ok && tv.Value != nil && tv.Value.String() == "1" && be.Op == token.LSS {
-						lower[what] = true
+					if tv, ok := vx.Info.Types[side]; ok && tv.Value != nil {
+						onY := side == be.Y
+						switch v := tv.Value.String(); {
+						case v == "1" && ((onY && be.Op == token.LSS) || (!onY && be.Op == token.GTR)):
+							lower[what] = true
+						case v == "0" && ((onY && be.Op == token.LEQ) || (!onY && be.Op == token.GEQ)):
+							lower[what] = true
+						}
 					}
 				}
 			}
@@ -668,7 +682,7 @@ func isFieldMinusOne(q Poly, field string) bool {
 // ---------------------------------------------------------------- R4 derived quantities
 
 func c18Derived(p *Prog, r *Report, stores []owStore, ax *Exec) {
-	r.Rule("C18.R4", "quantities the readers derive from an overridable parameter at read time are re-derived by the override: for every reader assignment D = f(P, …) with P an overridable destination and D another field, the override arm of P also assigns D, after P, from P", 1)
+	r.Rule("C18.R4", "quantities the readers derive from an overridable parameter at read time are re-derived by the override: for every reader assignment D = f(P, …) with P an overridable destination and D another field, the override arm of P also assigns D, after P, from P, with the recurrence (reset, increment, trip range) both readers use", 3)
 	dests := map[string]string{} // field → override name
 	for _, s := range stores {
 		if s.name != "" {
@@ -766,6 +780,7 @@ func c18Derived(p *Prog, r *Report, stores []owStore, ax *Exec) {
 		if pStore != nil {
 			pos = p.Pos(pStore.Pos)
 		}
+		c18DerivShape(p, r, d.D, []string{"hermes.ReadCropParamClassic", "hermes.ReadCropParamYml"})
 		r.Ob("derived:"+k, pos, okD, fmt.Sprintf("%s derives %s from %s at %s; the override arm %s re-derives it after overriding %s: %v", strings.TrimPrefix(d.fn, "hermes."), d.D, d.P, d.pos, name, d.P, okD))
 	}
 }
